@@ -48,6 +48,65 @@ def _job(spec):
             type(e).__name__, e), 'tb': traceback.format_exc(limit=10)}
 
 
+def _child(conn, spec):
+    try:
+        r = _job(spec)
+    except BaseException as e:
+        r = {'harness': spec[1], 'case': spec[2], 'twin': spec[3], 'fatal': repr(e), 'tb': ''}
+    try:
+        conn.send(r)
+    except Exception as e:
+        conn.send({'harness': spec[1], 'case': spec[2], 'twin': spec[3],
+                   'fatal': 'result not picklable: %r' % e, 'tb': ''})
+    conn.close()
+
+
+def run_jobs(jobs, njobs, hs, tier):
+    """One process per job with a hard wall-clock kill (z3 does not always honour its own
+    timeout inside nlsat); a killed job is reported as not exhausted = inconclusive."""
+    ctxm = mp.get_context('fork')
+    pending = list(jobs)
+    running = []
+    results = []
+    while pending or running:
+        while pending and len(running) < max(1, njobs):
+            spec = pending.pop(0)
+            h = hs[spec[1]]
+            bud = h.budget.get(tier, {}) if isinstance(h.budget.get(tier), dict) else {}
+            hard = float(bud.get('wall_s', 120.0)) * 1.25 + 30.0
+            pr, pw = ctxm.Pipe(duplex=False)
+            p = ctxm.Process(target=_child, args=(pw, spec))
+            p.start()
+            pw.close()
+            running.append((p, pr, spec, time.time() + hard))
+        time.sleep(0.02)
+        still = []
+        for (p, pr, spec, dl) in running:
+            if pr.poll():
+                try:
+                    results.append(pr.recv())
+                except EOFError:
+                    results.append({'harness': spec[1], 'case': spec[2], 'twin': spec[3],
+                                    'fatal': 'worker died', 'tb': ''})
+                p.join(1)
+                pr.close()
+            elif not p.is_alive():
+                results.append({'harness': spec[1], 'case': spec[2], 'twin': spec[3],
+                                'fatal': 'worker exited with %r' % p.exitcode, 'tb': ''})
+                pr.close()
+            elif time.time() > dl:
+                p.kill()
+                p.join(1)
+                pr.close()
+                results.append({'harness': spec[1], 'case': spec[2], 'twin': spec[3],
+                                'fatal': 'hard wall-clock kill (solver ignored its timeout)',
+                                'tb': ''})
+            else:
+                still.append((p, pr, spec, dl))
+        running = still
+    return results
+
+
 def src_hash(fn):
     try:
         fn = getattr(fn, 'fget', fn)
@@ -141,15 +200,7 @@ def main(argv=None):
                 if case is cases[0] or case.get('_twins'):
                     jobs.append((pid, h.name, case, tw, args.tier, seed, None))
     # big jobs first
-    results = []
-    if args.jobs <= 1 or len(jobs) <= 1:
-        for j in jobs:
-            results.append(_job(j))
-    else:
-        ctxm = mp.get_context('fork')
-        with ctxm.Pool(min(args.jobs, len(jobs))) as pool:
-            for r in pool.imap_unordered(_job, jobs, chunksize=1):
-                results.append(r)
+    results = run_jobs(jobs, args.jobs, hs, args.tier)
 
     known = load_known()
     rc = 0
